@@ -123,6 +123,9 @@ def _configs():
                             width = length_items[0][0]
                             cells += [c + " " * (width - len(c)) for c in list(cells) if len(c) < width]
                             cells.append(" " * width)
+                            # wider than the field only because of blanks around a fine value: too wide all the same
+                            padded = base + " " * (width - len(base))
+                            cells += [padded + " ", " " + padded, padded + "   "]
                         yield {"fmt": fmt, "field": field, "cells": cells}
 
 
